@@ -313,7 +313,8 @@ def compare_log(elog, glog, pid, m, eq=None):
 # ------------------------------------------------------------------ generator
 
 class Gen:
-    def __init__(self, rng, cfg, l, size, effects=False, heavy=False, allow=None):
+    def __init__(self, rng, cfg, l, size, effects=False, heavy=False, allow=None, overlap=None):
+        self.overlap = overlap
         self.rng = rng
         self.cfg = cfg
         self.l = l
@@ -682,8 +683,87 @@ class Gen:
             b = self.L[-1]
             self.try_op('matrix_prod', [a, b], {'r': r, 's': q if tr else c_, 'tr': tr}, ['L'])
 
+    OVERLAP_KINDS = ('mul', 'in_prod', 'schur_prod', 'scalar_mul', 'matrix_prod', 'prod', 'lt', 'eq', 'sgn', 'min2',
+                     'mod', 'floordiv', 'lsb', 'if_else', 'abs', 'pow', 'argmax', 'is_zero_public', 'sorted', 'divmod',
+                     'vector_add', 'sum')
+
+    def _overlap_op(self, kind, p, q, lp, lq):
+        if kind in ('mul', 'lt', 'eq', 'min2'):
+            return self.try_op(kind, [p, q], {}, ['B' if kind in ('lt', 'eq') else 'S'])
+        if kind in ('in_prod', 'schur_prod', 'vector_add'):
+            return self.try_op(kind, [lp, lq], {}, ['S'] if kind == 'in_prod' else ['L'])
+        if kind == 'scalar_mul':
+            return self.try_op(kind, [p, lq], {}, ['L'])
+        if kind == 'matrix_prod':
+            return self.try_op(kind, [lp, lq], {'r': 1, 's': len(self.val[lp]), 'tr': False}, ['L'])
+        if kind in ('prod', 'sum'):
+            return self.try_op(kind, [lp], {}, ['S'])
+        if kind in ('sgn', 'abs'):
+            return self.try_op(kind, [p], {}, ['S'])
+        if kind in ('mod', 'floordiv'):
+            return self.try_op(kind, [p], {'b': 3}, ['S'])
+        if kind in ('lsb', 'is_zero_public'):
+            return self.try_op(kind, [p], {}, ['B'])
+        if kind == 'pow':
+            return self.try_op(kind, [p], {'n': 3}, ['S'])
+        if kind == 'if_else':
+            return self.try_op('lt', [p, q], {}, ['B']) and self.try_op('if_else', [self.B[-1], p, q], {}, ['S'])
+        if kind == 'argmax':
+            return self.try_op(kind, [lp], {}, ['S', 'S'])
+        if kind == 'sorted':
+            return 'sorted' in OPS and self.try_op(kind, [lp], {}, ['L'])
+        if kind == 'divmod':
+            return self.try_op(kind, [p], {'b': 3}, ['S', 'S'])
+        return False
+
+    def overlap_scenario(self, idx):
+        """One operation (chosen by idx, so that a batch covers all of them) started on operands that come from
+        different senders -- so they become available at different moments at different parties -- while the main
+        program goes on: it waits for something else, starts other operations on other operands, starts the same
+        operation again.  Message labels must not depend on when the first operation's task gets to run."""
+        rng, m = self.rng, self.cfg.m
+        kind = self.OVERLAP_KINDS[idx % len(self.OVERLAP_KINDS)]
+        senders = [0, m - 1, 1 % m, (m - 1) // 2]
+        if (idx // len(self.OVERLAP_KINDS)) % 2:
+            rng.shuffle(senders)
+        for sd in senders:
+            v = rng.choice((-4, -3, -2, -1, 1, 2, 3, 4))
+            self.try_op('input', [], {'sender': sd, 'value': v, 'dummy': rng.choice((0, 1))}, ['S'])
+        a, b, c, d = self.S[-4:]
+        self.try_op('mklist', [a, b, c], {}, ['L'])
+        self.try_op('mklist', [c, d, a], {}, ['L'])
+        self.try_op('mklist', [b, c, d], {}, ['L'])
+        l1, l2, l3 = self.L[-3:]
+        self._overlap_op(kind, a, b, l1, l2)
+
+        def wait():
+            r = rng.random()
+            x = rng.choice((c, d, a, b))
+            if r < 0.4:
+                self.stmts.append(['gather', [], [x], {'aslist': False}])
+            elif r < 0.75:
+                self.stmts.append(['await_output', [], [x], {'receivers': None}])
+            elif r < 0.9:
+                self.stmts.append(['sleep0', [], [], {'n': rng.randint(1, 3)}])
+            else:
+                self.stmts.append(['delay', [], [], {'party': rng.randrange(m), 'dt': rng.choice((0.001, 0.01))}])
+        wait()
+        self._overlap_op(rng.choice(('mul', 'mul', 'lt', kind)), c, d, l3, l1)
+        if rng.random() < 0.7:
+            wait()
+        self._overlap_op(kind, b, c, l2, l3)
+        if rng.random() < 0.5:
+            self.try_op('mul', [d, a], {}, ['S'])
+
     def build(self):
         rng = self.rng
+        if self.overlap is not None:
+            self.overlap_scenario(self.overlap)
+            n0 = 7      # the inputs and the three lists
+            outs = []
+            for st in self.stmts[n0:]:
+                outs.extend(o for o in st[1] if o in self.val and not (isinstance(self.val[o], list) and not self.val[o]))
+            return {'family': NAME, 'type': {'l': self.l}, 'stmts': self.stmts, 'outputs': outs or [self.S[-1]]}
         self.add_inputs()
         if (self.allow is None or 'list' in self.allow) and rng.random() < 0.06:
             self.matrix_scenario()
@@ -707,12 +787,12 @@ class Gen:
         return {'family': NAME, 'type': {'l': self.l}, 'stmts': self.stmts, 'outputs': outs}
 
 
-def gen(rng, cfg, tier='quick', effects=False, heavy=False, l=None, size=None, allow=None):
+def gen(rng, cfg, tier='quick', effects=False, heavy=False, l=None, size=None, allow=None, overlap=None):
     if l is None:
         l = rng.choice((8, 12, 16, 16, 24, 32) if tier == 'quick' else (8, 10, 12, 16, 24, 32, 48, 64))
     if size is None:
         size = rng.randint(1, 6 if tier == 'quick' else 12)
-    g = Gen(rng, cfg, l, size, effects=effects, heavy=heavy, allow=allow)
+    g = Gen(rng, cfg, l, size, effects=effects, heavy=heavy, allow=allow, overlap=overlap)
     return g.build()
 
 
